@@ -210,30 +210,31 @@ Proof.
   - lia.
 Qed.
 
-Lemma over_wire_R c st p n :
-  slot_ok n st -> n <= next (hp st) -> R c st (fst (over_wire c st p)).
+Lemma over_wire_R c w st p n :
+  slot_ok n st -> n <= next (hp st) -> R c st (fst (over_wire c w st p)).
 Proof.
   intros Hs Hn. unfold over_wire.
   destruct (deref st p) as [s|]; [destruct (Z.eqb (st_code s) 0)|]; try apply R_unpack.
-  destruct (unpack c st s) as [st1 a] eqn:E. cbn.
-  pose proof (R_unpack c st s) as H. pose proof (unpack_addr c st s n Hs Hn) as (A1 & A2 & _).
+  destruct (unpack c st (wire_decode w s)) as [st1 a] eqn:E. cbn.
+  pose proof (R_unpack c st (wire_decode w s)) as H.
+  pose proof (unpack_addr c st (wire_decode w s) n Hs Hn) as (A1 & A2 & _).
   rewrite E in *. cbn in *.
   eapply R_trans; [exact H|].
   change (R c st1 (hold st1 (Some a))). apply R_hold. intros b Hb. inversion Hb; subst. exact A2.
 Qed.
 
-Lemma over_wire_obs c st p n :
+Lemma over_wire_obs c w st p n :
   slot_ok n st -> n <= next (hp st) ->
-  snd (over_wire c st p)
+  snd (over_wire c w st p)
   = match deref st p with
-    | Some s => if Z.eqb (st_code s) 0 then None else Some s
+    | Some s => if Z.eqb (st_code s) 0 then None else Some (wire_decode w s)
     | None => None
     end.
 Proof.
   intros Hs Hn. unfold over_wire.
   destruct (deref st p) as [s|]; [destruct (Z.eqb (st_code s) 0)|]; try reflexivity.
-  pose proof (unpack_addr c st s n Hs Hn) as (_ & _ & A3).
-  destruct (unpack c st s) as [st1 a]. cbn in *. exact A3.
+  pose proof (unpack_addr c st (wire_decode w s) n Hs Hn) as (_ & _ & A3).
+  destruct (unpack c st (wire_decode w s)) as [st1 a]. cbn in *. exact A3.
 Qed.
 
 (* ---------------------------------------------------------------- the two rewriting plugins *)
@@ -367,9 +368,9 @@ Qed.
 (* ---------------------------------------------------------------- one step *)
 Definition sget (t : table) (n : name) : option status := deref (init t) (lookup t n).
 
-Definition wire_spec (o : option status) : option status :=
+Definition wire_spec (w : wire) (o : option status) : option status :=
   match o with
-  | Some s => if Z.eqb (st_code s) 0 then None else Some s
+  | Some s => if Z.eqb (st_code s) 0 then None else Some (wire_decode w s)
   | None => None
   end.
 
@@ -380,15 +381,15 @@ Definition obs_spec (c : config) (t : table) (e : event) : option status :=
   | EReturn n => sget t n
   | ECopy n cause =>
       option_map (fun s => mkStatus (st_code s) (st_msg s) (Some cause)) (sget t n)
-  | ERemoteReturn n => wire_spec (sget t n)
-  | ERemoteCopy n cause =>
-      wire_spec (option_map (fun s => mkStatus (st_code s) (st_msg s) (Some cause)) (sget t n))
-  | ERemoteFresh s => wire_spec (Some s)
+  | ERemoteReturn w n => wire_spec w (sget t n)
+  | ERemoteCopy w n cause =>
+      wire_spec w (option_map (fun s => mkStatus (st_code s) (st_msg s) (Some cause)) (sget t n))
+  | ERemoteFresh w s => wire_spec w (Some s)
   | EProxyCall f =>
-      wire_spec (bg_spec c (match f with FOk => None | FSent n => sget t n | FObj s => Some s end))
+      wire_spec WQuery (bg_spec c (match f with FOk => None | FSent n => sget t n | FObj s => Some s end))
   | EBinder shared errstat omsg ocode =>
       match (match shared with Some n => sget t n | None => Some errstat end) with
-      | Some s => wire_spec (Some (fix_spec s omsg ocode))
+      | Some s => wire_spec WQuery (Some (fix_spec s omsg ocode))
       | None => None
       end
   end.
@@ -413,7 +414,7 @@ Proof.
   intros Hsafe G. unfold cfg_safe in Hsafe. apply andb_prop in Hsafe as [Hp Hb].
   apply negb_true_iff in Hp. apply negb_true_iff in Hb.
   destruct (good_slot_next _ _ G) as [Gs Gn].
-  destruct e as [| |n|n cause|n|n cause|s|n|f|f|shared errstat omsg ocode|i]; cbn [step is_inspect obs_spec].
+  destruct e as [| |n|n cause|w n|w n cause|w s|n|f|f|shared errstat omsg ocode|i]; cbn [step is_inspect obs_spec].
   - split; [apply R_refl | reflexivity].
   - split; [eapply over_wire_R; eauto|]. intros _. erewrite over_wire_obs; eauto.
   - split.
